@@ -225,7 +225,7 @@ Proof.
   intros H. unfold run_inner, run_inner_state.
   destruct (initial_state o name argv) as [st amb].
   destruct (env_frame_all e1 e2) as (_ & _ & Ho).
-  destruct amb as [[ix sh]|]; [destruct (f_autocomplete feat); [reflexivity|]|]; rewrite (Ho o H st); reflexivity.
+  destruct amb as [[ix sh]|]; [reflexivity|]; rewrite (Ho o H st); reflexivity.
 Qed.
 
 (* ------------------------------------------------------------------ precedence at the leaf *)
